@@ -688,7 +688,7 @@ def aligned_map(rng):
     return np.diag(np.exp(rng.uniform(-0.8, 0.8, size=3)))
 
 
-def mesh_case(rng, kinds=("voxel", "extrusion", "perturbed", "convexcopy"), aligned_frac=0.0):
+def mesh_case(rng, kinds=("voxel", "extrusion", "perturbed", "convexcopy"), aligned_frac=0.0, far_frac=0.0):
     """One G-mesh case: closed outward oriented mesh with convex faces + facts.
     With probability ``aligned_frac`` the solid stays axis aligned (no rotation, lattice
     translation) -- the degenerate case of winding-number code."""
@@ -724,6 +724,8 @@ def mesh_case(rng, kinds=("voxel", "extrusion", "perturbed", "convexcopy"), alig
         A = np.eye(3)
         info.update({"A": A, "genus": 0, "convexkind": c["kind"]})
     ratio = float(rng.choice([0.0, 0.1, 1.0, 10.0])) if kind != "convexcopy" else 0.0
+    if far_frac and rng.random() < far_frac:
+        ratio = float(rng.choice([100.0, 1000.0, 3000.0]))
     V = V0 @ A.T
     t = random_unit(rng) * ratio * diameter(V)
     if aligned and kind in ("voxel", "extrusion"):
@@ -820,14 +822,30 @@ def convex_exact_extreme(rng, kind=None):
 
     * ``low-apex``: a box with a vertex raised above one or more of its faces by 2^-36 .. 2^-13 of its size - facets
       that are almost, but not, coplanar (dihedral 1e-11 .. 1e-4 rad);
-    * ``needle`` / ``plate``: a small lattice polytope stretched by 2^10 .. 2^20 along one axis (needle) or two (plate).
+    * ``needle`` / ``plate``: a small lattice polytope stretched by 2^10 .. 2^20 along one axis (needle) or two (plate);
+    * ``near-symmetric``: a box or an octahedron (symmetric about the coordinate planes) taken through the linear map
+      I + 2^-k A (k = 18 .. 40, A a small integer matrix with zero diagonal): a solid turned / sheared off its symmetric
+      position by 4e-6 .. 1e-12 - its products of inertia are that small a fraction of the moments, and not zero.
 
     Returns P (float64, exactly Pint / 2^e), Pint (Python ints), e."""
     from . import geom
 
-    kind = kind or ("low-apex" if rng.random() < 0.5 else ("needle" if rng.random() < 0.6 else "plate"))
+    kind = kind or ("near-symmetric" if rng.random() < 0.3 else
+                    ("low-apex" if rng.random() < 0.5 else ("needle" if rng.random() < 0.6 else "plate")))
     for _ in range(200):
-        if kind == "low-apex":
+        if kind == "near-symmetric":
+            e = 44
+            k = int(rng.integers(18, 41))
+            half = [int(h) << e for h in rng.integers(1, 6, size=3)]
+            if rng.random() < 0.6:
+                base = [(sx * half[0], sy * half[1], sz * half[2]) for sx in (-1, 1) for sy in (-1, 1) for sz in (-1, 1)]
+            else:
+                base = [tuple(sg * half[t] if u == t else 0 for u in range(3)) for t in range(3) for sg in (-1, 1)]
+            A = [[0 if r == c_ else int(rng.integers(-3, 4)) for c_ in range(3)] for r in range(3)]
+            if not any(any(r) for r in A):
+                A[0][2] = 1
+            pts = [tuple(p[r] + sum(A[r][c_] * (p[c_] >> k) for c_ in range(3)) for r in range(3)) for p in base]
+        elif kind == "low-apex":
             e = int(rng.integers(13, 37))
             half = [int(h) << e for h in rng.integers(1, 4, size=3)]
             pts = [tuple(sx * half[0] if t == 0 else (sy * half[1] if t == 1 else sz * half[2]) for t in range(3))
